@@ -6,21 +6,21 @@
 # per check: "<dir> <id> caught|MISSED (exit code, seconds) <what>". The repo worktree is removed
 # afterwards; the copy of /verif (with its build cache) stays until tools/seedlab.sh --clean.
 if [ "$1" = "--clean" ]; then
-  for r in /tmp/slab/*/repo; do [ -d "$r" ] && git -C /repo worktree remove --force "$r"; done
+  for r in /tmp/slab/*/repo-*; do [ -d "$r" ] && git -C /repo worktree remove --force "$r"; done
   git -C /repo worktree prune; rm -rf /tmp/slab; exit 0
 fi
 slot="$1"; dir="$(cd "$2" && pwd)"; shift 2
 [ -f "$dir/patch.diff" ] || { echo "no patch in $dir"; exit 2; }
 L=/tmp/slab/$slot
 mkdir -p "$L" || exit 2
-git -C /repo worktree remove --force "$L/repo" 2>/dev/null
-git -C /repo worktree prune
-git -C /repo worktree add -q --detach "$L/repo" HEAD || exit 2
-git -C "$L/repo" apply "$dir/patch.diff" || { echo "$(basename $dir): patch does not apply"; git -C /repo worktree remove --force "$L/repo"; exit 2; }
+R="$L/repo-$slot"
+git -C /repo worktree remove --force "$R" 2>/dev/null
+git -C /repo worktree add -q --detach "$R" HEAD || exit 2
+git -C "$R" apply "$dir/patch.diff" || { echo "$(basename $dir): patch does not apply"; git -C /repo worktree remove --force "$R"; exit 2; }
 rsync -a --delete --exclude .git --exclude engine/target --exclude engine/fuzz/target --exclude engine/target-build.log --exclude replays/new --exclude evidence /verif/ "$L/verif/" || exit 2
-sed -i "s#path = \"/repo\"#path = \"$L/repo\"#" "$L/verif/engine/core/Cargo.toml" "$L/verif/engine/vcheck/Cargo.toml"
+sed -i "s#path = \"/repo\"#path = \"$R\"#" "$L/verif/engine/core/Cargo.toml" "$L/verif/engine/vcheck/Cargo.toml"
 cd "$L/verif" || exit 2
-VERIF_REPO="$L/repo"; export VERIF_REPO
+VERIF_REPO="$R"; export VERIF_REPO
 : "${VERIF_TIME_BUDGET_S:=3000}"; export VERIF_TIME_BUDGET_S
 for id in "$@"; do
   s=$(date +%s)
@@ -30,4 +30,4 @@ for id in "$@"; do
   if [ $rc -eq 1 ] && grep -q "^VIOLATION property=$id" "$L/$(basename $dir)-$id.log"; then v=caught; else v=MISSED; fi
   echo "$(basename $dir) $id $v (exit $rc, $((e-s))s) $(grep -m1 '^  what:' "$L/$(basename $dir)-$id.log" | cut -c1-200)"
 done
-git -C /repo worktree remove --force "$L/repo"
+git -C /repo worktree remove --force "$R"
